@@ -36,6 +36,7 @@ struct DWorld : World {
 	}
 	void gen(Rng &r, Plan &p, int tier) override {
 		p.set("fallback", r.chance(3, 4));
+		p.set("cxxwait", r.chance(1, 4));
 		p.set("reserve_first", r.chance(1, 5));   // the dispatcher's own table comes into being through a reply-id reservation (C++: dispatch is a command::array)
 		int nops = (int) r.range(1, tier ? 120 : 50);
 		bool allocf = r.chance(1, 3);
@@ -145,8 +146,10 @@ struct DWorld : World {
 		static_assert(sizeof(CDispatch) == sizeof(dispatch), "dispatch layout");
 		D = reinterpret_cast<dispatch *>(&cd);
 		{ Sut s; mpt_dispatch_init(D); }
-		struct CArr { buffer *buf; } wa; wa.buf = 0;          // reply-id reservations live on their own raw command array
-		unique_array<command> &waitarr = *reinterpret_cast<unique_array<command> *>(&wa);
+		struct CArr { buffer *buf; } wa; wa.buf = 0;          // reply-id reservations live on their own command array: a C one (starts without buffer)
+		// ... or, in a quarter of the runs, a C++ command::array as io::stream keeps one (its constructor attaches an empty typed buffer)
+		command::array *cxxwait = 0; if (p.get("cxxwait")) { Sut s; cxxwait = new command::array(); st.hit("probe:cxx_command_array"); }
+		unique_array<command> &waitarr = cxxwait ? *static_cast<unique_array<command> *>(cxxwait) : *reinterpret_cast<unique_array<command> *>(&wa);
 		std::set<uintptr_t> reserved;
 		if (!lib_fallback) { fallback = new_rec(0, 0, true); fallback->registered = true; { Sut s; D->set_error(handler, fallback); } }
 		log.ev("dispatch fallback=%s", lib_fallback ? "library default" : "harness");
@@ -306,7 +309,7 @@ struct DWorld : World {
 					for (auto it = reserved.begin(); it != reserved.end(); ) { x = x * 6364136223846793005ull + 1442695040888963407ull; if (*it <= 0x7f && ((x >> 33) & 1)) { command *c; { Sut s; c = mpt_command_get(&waitarr, *it); } if (!c) fail("lost-registration", "outstanding reply id %lx does not resolve", (unsigned long) *it); c->cmd = 0; it = reserved.erase(it); ++released; } else ++it; }
 					int again = 0; while (again < released && one()) ++again;
 					if (again < released) { std::string freeids; for (uintptr_t i = 1; i <= 0x7f; ++i) if (!reserved.count(i)) { char b[8]; snprintf(b, sizeof b, " %lx", (unsigned long) i); freeids += b; }
-						const buffer *wb = wa.buf; size_t slots = wb ? wb->_used / sizeof(command) : 0; size_t act = 0; for (size_t k = 0; k < slots; ++k) if (((const command *) (wb + 1))[k].cmd) ++act;
+						const buffer *wb = cxxwait ? *reinterpret_cast<buffer **>(cxxwait) : wa.buf; size_t slots = wb ? wb->_used / sizeof(command) : 0; size_t act = 0; for (size_t k = 0; k < slots; ++k) if (((const command *) (wb + 1))[k].cmd) ++act;
 						fail("refused-valid", "one-byte reply ids: %d ids were released but only %d could be reserved again; free ids:%s; table has %zu slots, %zu active, %zu outstanding in the model", released, again, freeids.c_str(), slots, act, reserved.size()); }
 					for (uintptr_t rid : reserved) { command *f; { Sut s; f = mpt_command_get(&waitarr, rid); } if (!f) fail("lost-registration", "outstanding reply id %lx no longer resolves after the burst", (unsigned long) rid); }
 					log.ev("RESERVE burst: %d reserved, %d released, %d reserved again, %zu outstanding", got, released, again, reserved.size());
@@ -371,6 +374,7 @@ struct DWorld : World {
 		if (fb) expect_eol(fb, "final teardown (fallback)");
 		for (Rec *r : recs) if (r->registered && r->eol != 1) fail("missing-end-of-life", "after teardown: registration #%d got %d end-of-life notifications", r->index, r->eol);
 		{ Sut s; mpt_array_clone(reinterpret_cast<array *>(&wa), 0); }
+		if (cxxwait) { Sut s; delete cxxwait; }
 		if (ledger_live()) fail("leak", "%zu block(s) allocated after teardown: %s", ledger_live(), ledger_describe().c_str());
 	}
 };
